@@ -469,6 +469,220 @@ func lateDocsChild(seed int64, dir string) (out raceOut) {
 	return
 }
 
+// coldSealedChild: one sealed fraction with many tokens; rounds of "drop every cache, then 12 searches+fetches for
+// different tokens in parallel": all of them miss the index caches at the same time and read through the fraction's
+// one disk.IndexReader.  Every search must return exactly the documents of its token, every fetch their bytes.
+func coldSealedChild(seed int64, dir string) (out raceOut) {
+	var mu sync.Mutex
+	add := func(class, what string) {
+		mu.Lock()
+		if len(out.Findings) < 10 {
+			out.Findings = append(out.Findings, finding2{class, what})
+		}
+		mu.Unlock()
+	}
+	// no fm.Start(): ResetCacheForTests is a test helper that is not meant to run next to the cache clean loop
+	conf.IndexWorkers = 2
+	conf.SkipFsync = true
+	fm := fracmanager.NewFracManager(&fracmanager.Config{DataDir: dir, FracSize: 1 << 30, TotalSize: 1 << 40, CacheSize: 1 << 26,
+		ShouldReplay: false, MaintenanceDelay: time.Hour})
+	if err := fm.Load(context.Background()); err != nil {
+		add("harness", err.Error())
+		return
+	}
+	const ntok = 240
+	byTok := map[int][]doc{}
+	byID := map[seq.ID]doc{}
+	n := 0
+	for k := 0; k < 24; k++ {
+		var ds []doc
+		for j := 0; j < 500; j++ {
+			t := (k*500 + j) % ntok
+			d := mkDoc(k, j, uint64(100000+k*500+j), uint64(k*100000+j+1), []int{t, ntok + (k*500+j)%7})
+			ds = append(ds, d)
+			byTok[t] = append(byTok[t], d)
+			byID[d.id()] = d
+		}
+		b := mkBulk(ds)
+		if err := fm.Append(context.Background(), b.docsB, b.metaB); err != nil {
+			add("append-error", err.Error())
+			return
+		}
+		n += len(ds)
+		out.Bulks++
+	}
+	fm.WaitIdle()
+	waitIndexed(fm, n)
+	fm.SealForcedForTests()
+	out.Fractions = len(fm.GetAllFracs())
+	searcher := fracmanager.NewSearcher(16, fracmanager.SearcherCfg{})
+	fetcher := fracmanager.NewFetcher(16)
+	rng := vh.NewRNG(seed)
+	for round := 0; round < 10; round++ {
+		fm.ResetCacheForTests()
+		var wg sync.WaitGroup
+		for g := 0; g < 12; g++ {
+			tok := rng.Intn(ntok)
+			wg.Add(1)
+			go func(tok int) {
+				defer wg.Done()
+				defer func() {
+					if p := recover(); p != nil {
+						add("search-error", fmt.Sprintf("cold sealed fraction, token %d: panic %v", tok, p))
+					}
+				}()
+				q := &query{op: 'T', tok: tok}
+				ast, _ := q.ast()
+				qpr, err := searcher.SearchDocs(context.Background(), fm.GetAllFracs(), processor.SearchParams{AST: ast, From: 0, To: 1 << 40, Limit: 1 << 20, Order: seq.DocsOrderDesc})
+				mu.Lock()
+				out.Searches++
+				mu.Unlock()
+				if err != nil {
+					add("search-error", fmt.Sprintf("cold sealed fraction, token %d: %v", tok, err))
+					return
+				}
+				got := map[seq.ID]bool{}
+				for _, x := range qpr.IDs {
+					got[x.ID] = true
+					if d, ok := byID[x.ID]; !ok || !d.has(tok) {
+						add("sealed-foreign-id", fmt.Sprintf("cold sealed fraction: search for token %d returned %v which does not carry it", tok, x.ID))
+						return
+					}
+				}
+				for _, d := range byTok[tok] {
+					if !got[d.id()] {
+						add("sealed-missing-id", fmt.Sprintf("cold sealed fraction: search for token %d did not return %s", tok, d.idStr()))
+						return
+					}
+				}
+				bodies, err := fetcher.FetchDocs(context.Background(), fm.GetAllFracs(), qpr.IDs)
+				mu.Lock()
+				out.Fetches++
+				mu.Unlock()
+				if err != nil {
+					add("fetch-error", fmt.Sprintf("cold sealed fraction, token %d: %v", tok, err))
+					return
+				}
+				for i, x := range qpr.IDs {
+					if i >= len(bodies) || string(bodies[i]) != string(byID[x.ID].body) {
+						add("fetch-after-search", fmt.Sprintf("cold sealed fraction: id %s returned by a search could not be fetched with its bytes", byID[x.ID].idStr()))
+						return
+					}
+				}
+			}(tok)
+		}
+		wg.Wait()
+		mu.Lock()
+		stop := len(out.Findings) > 0
+		mu.Unlock()
+		if stop {
+			break
+		}
+	}
+	return
+}
+
+// sealWindowChild: the sealer is parked at each of its points - after it made the fraction read-only, after it published
+// the sealed fraction, and after active.Release() but BEFORE FracManager.seal swaps the list entry - and at every one of
+// those moments a reader going through FracManager.GetAllFracs must see every acknowledged document (search + fetch).
+func sealWindowChild(seed int64, dir string) (out raceOut) {
+	add := func(class, what string) {
+		if len(out.Findings) < 10 {
+			out.Findings = append(out.Findings, finding2{class, what})
+		}
+	}
+	fm, err := newPlainFM(dir)
+	if err != nil {
+		add("harness", err.Error())
+		return
+	}
+	rng := vh.NewRNG(seed)
+	var all []doc
+	for k := 0; k < 4; k++ {
+		var ds []doc
+		for j := 0; j < rng.Range(2, 6); j++ {
+			ds = append(ds, mkDoc(k, j, uint64(1000+k*10+j), uint64(k*1000+j+1), []int{0, k % 3}))
+		}
+		b := mkBulk(ds)
+		if err := fm.Append(context.Background(), b.docsB, b.metaB); err != nil {
+			add("append-error", err.Error())
+			return
+		}
+		all = append(all, ds...)
+		out.Bulks++
+	}
+	fm.WaitIdle()
+	waitIndexed(fm, len(all))
+	fetcher := fracmanager.NewFetcher(4)
+	checkAll := func(when string) {
+		got, err := searchAll(fm, "T0")
+		out.Searches++
+		if err != nil {
+			add("search-error", when+": "+err.Error())
+			return
+		}
+		var ids []seq.IDSource
+		for _, d := range all {
+			if !got[d.id()] {
+				add("invisible-during-seal", fmt.Sprintf("%s: acknowledged document %s is not returned by a search although the writers are idle", when, d.idStr()))
+				return
+			}
+			ids = append(ids, seq.IDSource{ID: d.id()})
+		}
+		bodies, err := fetcher.FetchDocs(context.Background(), fm.GetAllFracs(), ids)
+		out.Fetches++
+		if err != nil {
+			add("fetch-error", when+": "+err.Error())
+			return
+		}
+		for i, d := range all {
+			if i >= len(bodies) || string(bodies[i]) != string(d.body) {
+				add("invisible-during-seal", fmt.Sprintf("%s: acknowledged document %s cannot be fetched", when, d.idStr()))
+				return
+			}
+		}
+	}
+	checkAll("before sealing")
+	for _, at := range []string{"c07.pf.seal.begin", "c07.pf.seal.publish", "c07.pf.seal.release"} {
+		if len(out.Findings) > 0 {
+			break
+		}
+		g := newGate()
+		verifhook.Set(g.handler)
+		// a bulk for the next round goes to the new active fraction; the one being sealed holds `all` so far
+		sWake, sDone := g.run(at, fm.SealForcedForTests)
+		if ok, fin := waitArrive(g, sDone, 30); !ok {
+			verifhook.Set(nil)
+			if !fin {
+				add("harness", "the sealer did not reach "+at)
+			}
+			return
+		}
+		checkAll("sealer parked at " + at)
+		sWake <- struct{}{}
+		<-sDone
+		verifhook.Set(nil)
+		checkAll("after the seal that was parked at " + at)
+		// something to seal in the next round
+		var ds []doc
+		k := 10 + len(all)
+		for j := 0; j < 3; j++ {
+			ds = append(ds, mkDoc(k, j, uint64(2000+k*10+j), uint64(k*1000+j+1), []int{0}))
+		}
+		b := mkBulk(ds)
+		if err := fm.Append(context.Background(), b.docsB, b.metaB); err != nil {
+			add("append-error", err.Error())
+			return
+		}
+		all = append(all, ds...)
+		fm.WaitIdle()
+		waitIndexed(fm, len(all))
+	}
+	out.Fractions = len(fm.GetAllFracs())
+	fm.Stop()
+	return
+}
+
 func sealedPoolChild(seed int64, dir string) (out raceOut) {
 	debug.SetGCPercent(-1) // a GC would empty the pools between the failed search and the next providers
 	add := func(class, what string) {
